@@ -30,8 +30,12 @@ pub const REC_NAMES: [&str; 7] = [
     "Accept",
     "Accept-Encoding",
 ];
-pub const CUSTOM_NAMES: [&str; 8] =
-    ["Host", "X-Custom", "x", "Content-Lengthh", "User-Agent", "a b", "Accept-Charset", "X-\u{e9}"];
+pub const CUSTOM_NAMES: [&str; 14] = [
+    "Host", "X-Custom", "x", "Content-Lengthh", "User-Agent", "a b", "Accept-Charset", "X-\u{e9}",
+    // characters whose lower-case (or upper-case) form has a different UTF-8 length: any index computed on a
+    // case-folded copy is off in the original
+    "\u{212a}", "X-\u{212b}x", "\u{1e9e}-h", "\u{130}", "\u{23a}\u{23e}", "Accept\u{212a}",
+];
 pub const CL_VALUES: [&str; 14] = [
     "0", "1", "5", "007", "+5", "4294967295", "4294967296", "-1", "", "abc", "5 5", "12", "-0",
     "\u{ff11}",
